@@ -1189,6 +1189,21 @@ func c02MessageVerbatim(c *core.Ctx) {
 				undec = u
 			}
 		}
+		// whatever follows the separator IS the message, the empty text included: the edge on which the parsed
+		// text replaces the fallback is not conditioned on the text's own content
+		ccWhy, ccAt := "", token.NoPos
+		for _, m := range msgs {
+			if why, at := contentConditioned(m); why != "" && ccWhy == "" {
+				ccWhy, ccAt = why, at
+			}
+		}
+		{
+			if why, at := ccWhy, ccAt; why != "" {
+				c.Fail(key+":presence-not-content", at, "the parsed message replaces the fallback (the HTTP status text) only if %s: a status whose message is empty is reported with the HTTP status line as its message", why)
+			} else {
+				c.Ok(key+":presence-not-content", fn.Pos(), "the parsed message is taken whenever the separator is present, whatever its content")
+			}
+		}
 		switch {
 		case bad != "":
 			c.Fail(key, fn.Pos(), "the status message the client reports is not the header text after the first ':' as is: %s (the writer puts the message there unchanged)", bad)
@@ -1406,4 +1421,119 @@ func c02ClientConvertsFrameErr(p *core.Prog) bool {
 		}
 	}
 	return found && allOK
+}
+
+// contentConditioned: walking the phis that merge into v, reports an edge whose
+// incoming value is a piece of a split string (strings.Cut / SplitN element)
+// and which is dominated by a test of that very piece (compared with a
+// constant, or its length tested).
+func contentConditioned(v ssa.Value) (string, token.Pos) {
+	isPiece := func(e ssa.Value) bool {
+		if ex, ok := e.(*ssa.Extract); ok {
+			if call, ok := ex.Tuple.(*ssa.Call); ok && core.InfoOf(&call.Call).Is("strings.Cut") {
+				return true
+			}
+		}
+		if u, ok := e.(*ssa.UnOp); ok && u.Op == token.MUL {
+			if ia, ok := u.X.(*ssa.IndexAddr); ok {
+				for _, o := range core.Origins(ia.X) {
+					if call, _, ok := core.CallResult(o); ok && strings.HasPrefix(core.InfoOf(&call.Call).Full(), "strings.Split") {
+						return true
+					}
+				}
+			}
+		}
+		return false
+	}
+	same := func(a, b ssa.Value) bool {
+		if a == b {
+			return true
+		}
+		ua, ok1 := a.(*ssa.UnOp)
+		ub, ok2 := b.(*ssa.UnOp)
+		if ok1 && ok2 && ua.Op == token.MUL && ub.Op == token.MUL {
+			ia, ok1 := ua.X.(*ssa.IndexAddr)
+			ib, ok2 := ub.X.(*ssa.IndexAddr)
+			if ok1 && ok2 && ia.X == ib.X && core.SameVal(ia.Index, ib.Index) {
+				return true
+			}
+		}
+		return false
+	}
+	seen := map[ssa.Value]bool{}
+	var res string
+	var at token.Pos
+	var rec func(v ssa.Value, depth int)
+	rec = func(v ssa.Value, depth int) {
+		if v == nil || seen[v] || depth > 8 || res != "" {
+			return
+		}
+		seen[v] = true
+		switch x := v.(type) {
+		case *ssa.Phi:
+			for i, e := range x.Edges {
+				if isPiece(e) {
+					pred := x.Block().Preds[i]
+					term := pred.Instrs[len(pred.Instrs)-1]
+					facts := core.DominatingFacts(term)
+					if iff, ok := term.(*ssa.If); ok {
+						for si, sb := range pred.Succs {
+							if sb == x.Block() {
+								facts = append(facts, core.EdgeFact{B: pred, Succ: si, Fact: core.CondFact(iff.Cond, si == 0), If: iff})
+							}
+						}
+					}
+					for _, ef := range facts {
+						f := ef.Fact
+						for _, side := range []ssa.Value{f.X, f.Y} {
+							if side == nil {
+								continue
+							}
+							if same(side, e) {
+								res, at = "its own text passes a test (compared with a constant)", condPos(ef.If)
+							}
+							if lc, ok := side.(*ssa.Call); ok {
+								if b, isB := lc.Call.Value.(*ssa.Builtin); isB && b.Name() == "len" && same(lc.Call.Args[0], e) {
+									res, at = "its own length passes a test", condPos(ef.If)
+								}
+							}
+						}
+					}
+				}
+				rec(e, depth+1)
+			}
+		case *ssa.ChangeType:
+			rec(x.X, depth+1)
+		case *ssa.MakeInterface:
+			rec(x.X, depth+1)
+		case *ssa.Extract, *ssa.Call:
+			// the result of a module helper: what it returns in that position
+			if call, idx, ok := core.CallResult(v); ok {
+				if f := core.InfoOf(&call.Call).Static; f != nil && f.Blocks != nil && strings.HasPrefix(core.InfoOf(&call.Call).Pkg, core.ModulePath) {
+					for _, r := range core.Returns(f) {
+						if idx < len(r.Results) {
+							rec(r.Results[idx], depth+1)
+						}
+					}
+				}
+			}
+		}
+	}
+	rec(v, 0)
+	return res, at
+}
+
+func condPos(iff *ssa.If) token.Pos {
+	if iff == nil {
+		return token.NoPos
+	}
+	if p := iff.Cond.Pos(); p.IsValid() {
+		return p
+	}
+	if bo, ok := iff.Cond.(*ssa.BinOp); ok {
+		if p := bo.X.Pos(); p.IsValid() {
+			return p
+		}
+	}
+	return iff.Pos()
 }
